@@ -24,9 +24,9 @@ SPEC = {
     "budget_s": {"quick": 55, "thorough": 900},
     "needs": ["probe-rel"],
     "needs_thorough": ["probe-rel", "probe-chk"],
-    "rule": ("programs from G_isa, G_casc, G_bank and include-wrapping variants x 12 views drawn from the parameter space; "
+    "rule": ("programs from G_isa, G_casc, G_bank and include-wrapping variants x 12 views drawn from the parameter space, plus (8 %) label/constant trees under `#if` arms whose `symbols` table is compared with the lexically declared names; "
              "non-trivial = successful program with >= 3 items whose views were all checked; distinct = distinct (source, views)"),
-    "monitors": ["annotated", "tcgame", "addrspan", "symbols", "mesen-mlb", "address-assigned-by-layout", "labels-listed-once"],
+    "monitors": ["annotated", "tcgame", "addrspan", "symbols", "mesen-mlb", "address-assigned-by-layout", "labels-listed-once", "symbols-vs-declared-names"],
     "min_nontrivial": {"quick": 500, "thorough": 10000},
     "assumptions": ["spans and symbol values of the record are the ground truth for 'the assembly'"],
 }
@@ -188,6 +188,58 @@ def judge(ctx, job, rec, files, views):
     return good
 
 
+def declared_names_case(ctx, rng, worker):
+    """Symbol tables against the *declared* symbols, derived lexically from the source (not from the assembler's own
+    symbol tree): global labels, nested labels and nested constants, each possibly inside an `#if` arm chosen by a
+    top-level constant. A nested declaration belongs to the last global label of the selected world before it."""
+    conds = [rng.random() < 0.6 for _ in range(3)]
+    lines = ["c%d = %d" % (i, int(c)) for i, c in enumerate(conds)]
+    want = {"c%d" % i: int(c) for i, c in enumerate(conds)}
+    addr, cur, cur_wrapped, known = 0, None, False, False
+    for k in range(rng.randint(4, 10)):
+        kind = "G" if k == 0 else rng.choice(["G", "G", "N", "N", "K"])
+        w = None if k == 0 or rng.random() < 0.5 else rng.randrange(3)
+        live = w is None or conds[w]
+        if kind == "G":
+            body, name = ["g%d:" % k, "#d8 %d" % k], "g%d" % k
+        elif kind == "N":
+            body, name = [".n%d:" % k, "#d8 .n%d" % k], ".n%d" % k
+        else:
+            body, name = [".k%d = %d" % (k, k + 100)], ".k%d" % k
+        lines += body if w is None else ["#if c%d != 0" % w, "{"] + ["    " + b for b in body] + ["}"]
+        if not live:
+            continue
+        if kind == "G":
+            cur, cur_wrapped = name, w is not None
+            want[name] = addr
+        else:
+            if cur_wrapped and w is None:
+                known = True      # KF-C16-reparent: the nested declaration was bound before the arm was spliced
+            want[cur + name] = addr if kind == "N" else k + 100
+        if kind != "K":
+            addr += 1
+    src = "\n".join(lines) + "\n"
+    job = lib.asm_job({"main.asm": src}, want=["symbols"], formats=["symbols"])
+    rec = worker.run(job)
+    ctx.evaluated()
+    if lib.abnormal(rec):
+        ctx.excluded += 1
+        return
+    if known:
+        ctx.count("declared-names:excluded-arm-label-followed-by-nested-declaration")
+        return
+    ctx.monitor("symbols-vs-declared-names")
+    text = ((rec.get("formats") or {}).get("symbols") or {}).get("t") if lib.ok(rec) else None
+    got = sorted(l for l in (text or "").split("\n") if l != "")
+    exp = sorted("%s = 0x%x" % (n, v) for n, v in want.items())
+    if got != exp:
+        ctx.violation("listing", {"kind": "symbols-differ-from-declared", "accepted": lib.ok(rec)}, job,
+                      {"symbols": exp}, {"symbols": got[:40], "msgs": lib.first_messages(rec)})
+    elif len(want) >= 6:
+        ctx.count("declared-names:agree")
+        ctx.nontrivial_case(src.encode())
+
+
 def shard(ctx):
     worker = ctx.worker("rel")
     chk = ctx.worker("chk") if ctx.tier == "thorough" else None
@@ -195,6 +247,9 @@ def shard(ctx):
     while not ctx.out_of_time():
         rng = ctx.rng(i)
         i += ctx.nshards
+        if rng.random() < 0.08:
+            declared_names_case(ctx, rng, worker)
+            continue
         r = rng.random()
         if r < 0.5:
             prog = G.gen_program(rng, cascade=rng.random() < 0.3, faults=False)
